@@ -12,7 +12,7 @@
 -/
 import NngModel.Base.Bytes
 import NngModel.Spec.Queues
-import NngModel.Generated.Consts
+import NngModel.Generated.C18
 
 namespace Nng.Lmq
 open Nng.QSpec (Msg)
